@@ -69,7 +69,7 @@ pub struct FzScenario {
     pub ws_max_size: u32,
 }
 
-const EXTREMES: &[&str] = &["0", "1", "00", "-1", "+1", "255", "256", "65535", "65536", "2147483647", "2147483648", "4294967295", "4294967296", "9223372036854775807", "9223372036854775808", "18446744073709551615", "18446744073709551616", "99999999999999999999999999", "0x10", "1e9", "7fffffffffffffff", "ffffffffffffffff", "10000000000000000"];
+const EXTREMES: &[&str] = &["0", "1", "00", "-1", "+1", "255", "256", "65535", "65536", "2147483647", "2147483648", "4294967295", "4294967296", "9223372036854775807", "9223372036854775808", "18446744073709551615", "18446744073709551616", "99999999999999999999999999", "0x10", "1e9", "7fffffffffffffff", "ffffffffffffffff", "10000000000000000", "NaN", "nan", "inf", "-inf", "infinity", "1e999", "1e-999", "0.0000000001", "1.0001", "1.", "0.9999999999999999999", "1.5", "2", "٣"];
 
 fn pos(pm: u32, lo: usize, hi: usize) -> usize {
     if hi <= lo {
@@ -129,6 +129,14 @@ fn apply(mut b: Vec<u8>, region: u8, muts: &[Mut]) -> Vec<u8> {
                             i += 1;
                         }
                         runs.push((s, i));
+                        // a decimal number (q-values, HTTP version, float fields) also counts as one token
+                        if i + 1 < hi.min(b.len()) && b[i] == b'.' && b[i + 1].is_ascii_digit() {
+                            let mut j = i + 1;
+                            while j < hi.min(b.len()) && b[j].is_ascii_digit() {
+                                j += 1;
+                            }
+                            runs.push((s, j));
+                        }
                     } else {
                         i += 1;
                     }
@@ -253,11 +261,13 @@ fn base_ws_frames(seed: u64, to_server: bool) -> Vec<u8> {
     let mut out = Vec::new();
     for _ in 0..n {
         let len = *rng.pick(&[0u64, 1, 5, 125, 126, 127, 300, 65_535, 65_536, 70_000]);
+        // sometimes the header announces an extreme length and little or nothing follows
+        let (len, present) = if rng.chance(1, 6) { (*rng.pick(&[1u64 << 31, 1 << 32, (1 << 63) - 1, 1 << 63, u64::MAX - 14, u64::MAX - 1, u64::MAX]), rng.below(12)) } else { (len, len) };
         let spec = ws::FrameSpec {
             fin: rng.chance(3, 4),
             opcode: *rng.pick(&[0u8, 1, 2, 8, 9, 10, 1, 2]),
             len,
-            present: len,
+            present,
             masked: to_server,
             mask: [rng.below(256) as u8, rng.below(256) as u8, rng.below(256) as u8, rng.below(256) as u8],
             seed: rng.below(1 << 30) as u32,
